@@ -227,11 +227,12 @@ def dstepTokens (d : DState) (ts : List String) : DState × String :=
             | none => (d, "noview")
             | some (_, c) =>
               -- STOP = 0: the visitor never stops; STOP = k > 0: it says stop at the k-th item
+              -- (`Cache.stepC2`, the step function of `runC2` / C01.cache_invisible_with_visits)
               match (match stop.toNat? with
-                  | some 0 => Cache.visitC (d.w.file f).bytes cl.cmp.fn (dir == "asc") (w == "1")
-                      (cl.root.size + 2) c (tgt.getD []) 0
-                  | some k => (Cache.visitCK (d.w.file f).bytes cl.cmp.fn (dir == "asc") (w == "1")
-                      (cl.root.size + 2) c (tgt.getD []) 0 k).map fun x => (x.1, x.2.2.1, x.2.2.2)
+                  | some k => (match Cache.stepC2 (d.w.file f).bytes cl.cmp.fn (cl.root.size + 2) c
+                        (.visit (dir == "asc") (tgt.getD []) (w == "1") k) with
+                      | some (.many out, c', rds) => some (out, c', rds)
+                      | _ => none)
                   | none => none) with
               | none => (d, "err")
               | some (out, c', rds) =>
